@@ -24,6 +24,7 @@ def lam(x, y, z):
 
 def run(ctx: Check, tree: Tree) -> None:
     ctx.decided += [
+        "R-ARGORDER (shared with C14): Kibble/Kallen unpack self.args positionally; .args are in field-declaration order however the caller spells keyword arguments",
         "Kallen.evaluate is totally symmetric and equals (x-(u+v)^2)(x-(u-v)^2) at y=u^2, z=v^2 (R-TERM, polynomial identity)",
         "compute_third_mandelstam + sigma1 + sigma2 = m0^2+m1^2+m2^2+m3^2 (R-TERM)",
         "Kibble.evaluate, fully unfolded, equals lambda(lambda(s1,m1^2,m0^2), lambda(s2,m2^2,m0^2), lambda(s3,m3^2,m0^2)) (R-TERM)",
@@ -83,34 +84,60 @@ def run(ctx: Check, tree: Tree) -> None:
     key = f"{fn.qual}::piecewise"
     where = tree.loc(fn.node)
     problems = []
+    default_is_outside = None
     if not (isinstance(pw, PW) and len(pw.branches) == 2):
         problems.append("not a 2-branch Piecewise")
     else:
         (v1, c1), (v2, c2) = pw.branches
-        if not (isinstance(v1, RF) and v1.is_const() and v1.const_value() == 1):
-            problems.append(f"inside value is {v1!r}, not 1")
-        if not (isinstance(c1, Rel)):
+        if not (isinstance(c2, Opaque) and c2.key is True):
+            problems.append("second condition is not `True`")
+        if not isinstance(c1, Rel):
             problems.append("first condition is not a relation")
         else:
-            # normalise to  lhs - rhs <= 0
+            # normalise the first condition to  Kibble  <op>  0
             lhs = te._rf(c1.lhs) - te._rf(c1.rhs)
             op = c1.op
-            if op in {">=", ">"}:
-                lhs, op = -lhs, {">=": "<=", ">": "<"}[op]
-            if op != "<=":
-                problems.append(f"comparison `{c1.op}` is not the non-strict Kibble <= 0")
             atom = te.single_atom(lhs)
             if atom is None or not te.is_app(atom, "::Kibble"):
-                problems.append("condition is not `Kibble(...) <= 0`")
+                atom = te.single_atom(-lhs)
+                op = {"<=": ">=", "<": ">", ">=": "<=", ">": "<"}.get(op, op)
+            if atom is None or not te.is_app(atom, "::Kibble"):
+                problems.append("condition is not a comparison of `Kibble(...)` with 0")
             else:
                 got = te.apps[atom].args
                 want = [s1, s2, total - s1 - s2, *m]
                 for name, g, w in zip(["sigma1", "sigma2", "sigma3", "m0", "m1", "m2", "m3"], got, want):
                     if not equal(te._rf(g), w):
                         problems.append(f"Kibble field {name} receives {g!r} instead of {w!r}")
-        if not (isinstance(v2, RF) and equal(v2, outside)):
-            problems.append(f"outside branch returns {v2!r}, not the caller's outside_value")
-        if not (isinstance(c2, Opaque) and c2.key is True):
-            problems.append("second condition is not `True`")
+            # two equivalent layouts:  ((1, K <= 0), (out, True))   and   ((out, K > 0), (1, True))
+            one_first = isinstance(v1, RF) and v1.is_const() and v1.const_value() == 1
+            if op == "<=":
+                inside, out_val = v1, v2
+                default_is_outside = True
+            elif op == ">":
+                inside, out_val = v2, v1
+                default_is_outside = False
+            else:
+                inside, out_val = (v1, v2) if one_first else (v2, v1)
+                problems.append(f"comparison `Kibble {op} 0`: the boundary Kibble == 0 (collinear momenta) is physical and must be inside - accepted are `Kibble <= 0 -> 1` or `Kibble > 0 -> outside`")
+            if not (isinstance(inside, RF) and inside.is_const() and inside.const_value() == 1):
+                problems.append(f"inside value is {inside!r}, not 1")
+            if not (isinstance(out_val, RF) and equal(out_val, outside)):
+                problems.append(f"outside branch returns {out_val!r}, not the caller's outside_value")
     ctx.verdict(not problems, "R-TERM", key, where,
-                "is_within_phasespace == Piecewise((1, Kibble(s1,s2,sum m^2 - s1 - s2,m0,m1,m2,m3) <= 0), (outside_value, True))", problems or None)
+                "is_within_phasespace == 1 where Kibble(s1,s2,sum m^2 - s1 - s2,m0,m1,m2,m3) <= 0, the caller's outside_value elsewhere (either Piecewise layout)", problems or None)
+    # R-NAN: a comparison with NaN is False, so NaN falls into the otherwise-branch.  Either Kibble is
+    # NaN-free on real input (polynomial: no radical, no division), or the otherwise-branch is `outside`.
+    from ..terms import deep_atoms
+
+    atoms = deep_atoms(te, kib)
+    radicals = sorted({str(a[0]) for a in atoms if isinstance(a, tuple) and a and a[0] in {"sqrt", "pow", "ComplexSqrt", "log", "acos", "atan"}})
+    has_division = not kib.normalized().d.is_const()
+    nan_free = not radicals and not has_division
+    ok = nan_free or default_is_outside is True
+    ctx.verdict(ok, "R-NAN", f"{fn.qual}::nan-classified-outside", where,
+                "points where Kibble cannot be evaluated are not classified as inside: " + ("Kibble is a polynomial in its arguments (no radicals, no division)" if nan_free else "the otherwise-branch of the indicator is the outside value"),
+                None if ok else f"Kibble contains {radicals or 'a division'} (NaN for negative Kallen values in the corners of the bounding box) and NaN falls into the otherwise-branch, which returns 1")
+    from .c14 import check_arg_order
+
+    ctx.section(check_arg_order, ctx, tree)
